@@ -9,10 +9,10 @@ from . import core, shim
 
 
 class Part(object):
-    __slots__ = ('pid', 'evr', 'gw', 'resr', 'pending', 'done', 'buf', 'steps')
+    __slots__ = ('pid', 'evr', 'gw', 'resr', 'pending', 'done', 'buf', 'steps', 'alone_tail', 'exited')
 
 
-def _spawn(fn, root):
+def _spawn(fn, root, linger=False):
     import dill
     L = shim.lib()
     evr, evw = os.pipe()
@@ -35,6 +35,15 @@ def _spawn(fn, root):
             L.vshim_disarm()
             with os.fdopen(rw, 'wb') as f:
                 f.write(dill.dumps(res))
+            if linger:
+                # stay alive and idle (handles, connections and whatever locks they still hold stay open) until the scheduler lets go
+                os.write(evw, b'%d 0 R DONE -\n' % os.getpid())
+                while True:
+                    try:
+                        if os.read(gr, 1):
+                            break
+                    except InterruptedError:
+                        continue
         except BaseException:
             code = 3
         finally:
@@ -44,6 +53,7 @@ def _spawn(fn, root):
     os.close(rw)
     p = Part()
     p.pid, p.evr, p.gw, p.resr, p.pending, p.done, p.buf, p.steps = pid, evr, gw, rr, None, False, b'', 0
+    p.alone_tail, p.exited = 0, False
     return p
 
 
@@ -56,6 +66,7 @@ def _next_event(p, timeout):
         b = os.read(p.evr, 65536)
         if not b:
             p.done = True
+            p.exited = True
             p.pending = None
             return
         p.buf += b
@@ -66,10 +77,14 @@ def _next_event(p, timeout):
         line += b'\n' + more
     p.buf = rest
     parts = line.decode('utf-8', 'replace').split(' ', 4)
+    if len(parts) > 3 and parts[3] == 'DONE':
+        p.done = True            # operation finished; the process lingers, idle
+        p.pending = None
+        return
     p.pending = (parts[2], parts[3], parts[4] if len(parts) > 4 else '')
 
 
-def run(fns, root, schedule, timeout=30, max_steps=20000):
+def run(fns, root, schedule, timeout=30, max_steps=20000, linger=False):
     """run the participants under the given schedule (list of participant indices; when it is exhausted, or names a
     participant that cannot run, the lowest-numbered runnable participant goes: every schedule is fair and finite).
     A participant parked at a sleep is only chosen when no other can run.
@@ -78,7 +93,7 @@ def run(fns, root, schedule, timeout=30, max_steps=20000):
     parts = []
     try:
         for fn in fns:
-            p = _spawn(fn, root)
+            p = _spawn(fn, root, linger)
             parts.append(p)
             _next_event(p, timeout)          # runs (alone) up to its first event
         trace = []
@@ -102,12 +117,21 @@ def run(fns, root, schedule, timeout=30, max_steps=20000):
                 i = cands[0]
             p = parts[i]
             trace.append((i,) + p.pending)
+            # how many of its most recent steps this participant took while every other participant had already finished its operation
+            p.alone_tail = p.alone_tail + 1 if len(runnable) == 1 else 0
             os.write(p.gw, b'x')
             p.steps += 1
             _next_event(p, timeout)
             steps += 1
             if steps > max_steps:
                 raise core.HarnessError('schedule did not terminate within %d steps' % max_steps)
+        if linger:
+            for p in parts:
+                if not p.exited:
+                    try:
+                        os.write(p.gw, b'q')
+                    except OSError:
+                        pass
         results = []
         for p in parts:
             data = b''
@@ -117,6 +141,7 @@ def run(fns, root, schedule, timeout=30, max_steps=20000):
                     break
                 data += b
             results.append(dill.loads(data) if data else ('exc', 'HarnessChildDied', 'no result'))
+        run.last_alone_tails = [p.alone_tail for p in parts]
         return results, trace
     finally:
         for p in parts:
